@@ -87,7 +87,7 @@ def specDecodeOK (parseOK tzOK : Bool) (c : Conf) (o : DecodeObs) : Bool :=
   | .accepted loc days same =>
     parseOK && tzOK &&
     days == confDays c &&                                   -- read unchanged
-    (loc == c.tz || (c.tz == [] && loc == Bytes.ofString "UTC")) &&
+    (loc == c.tz || (c.tz == [] && loc == utcName)) &&
     days.toList.all (fun r => !mustReject r) &&             -- nothing forbidden got in
     same                                                    -- survives the round trip
   | .rejected =>
